@@ -98,6 +98,14 @@ var kernelList = []kernelSpec{
 	{"x/bet/types", "", "validateMaxBetByUIDQueryCount"},
 	{"x/bet/types", "", "validateConstraints"},
 	{"x/bet/types", "Params", "Validate"},
+	{"x/orderbook/types", "", "validateMaxOrderBookParticipations"},
+	{"x/orderbook/types", "", "validateBatchSettlementCount"},
+	{"x/orderbook/types", "", "validateRequeueThreshold"},
+	{"x/orderbook/types", "Params", "Validate"},
+	{"x/house/types", "", "validateMinimumDeposit"},
+	{"x/house/types", "", "validateHouseParticipationFee"},
+	{"x/house/types", "", "validateMaxWithdrawalCount"},
+	{"x/house/types", "Params", "Validate"},
 }
 
 // structs that only occur as parameters
